@@ -54,6 +54,23 @@ for name,edits in benign.B.items():
         if s0.count(a)!=1: ok=False; break
         ov[p]=s0.replace(a,b)
     bjobs.append(('benign:'+name,ov if ok else None,'' if ok else 'stale: find does not match once'))
+# behaviour-preserving refactorings produced by sub-agents (benign_patches/<area>/<n>/patch.diff), confirmed by their package tests
+for meta in sorted(glob.glob(V+'/benign_patches/*/*/meta.json')):
+    md=json.load(open(meta))
+    if not md.get('accepted'): continue
+    d=os.path.dirname(meta)
+    name='benign-patch:'+md['id']
+    tmp=tempfile.mkdtemp(dir='/dev/shm')
+    try:
+        files=[l[6:].strip() for l in open(d+'/patch.diff') if l.startswith('+++ b/')]
+        for f in files:
+            os.makedirs(os.path.dirname(os.path.join(tmp,f)),exist_ok=True)
+            shutil.copy(os.path.join(REPO,f),os.path.join(tmp,f))
+        pr=subprocess.run(['patch','-p1','-s','-d',tmp,'-i',d+'/patch.diff'],capture_output=True,text=True)
+        if pr.returncode!=0: bjobs.append((name,None,'stale: patch does not apply')); continue
+        bjobs.append((name,{os.path.join(REPO,f):open(os.path.join(tmp,f)).read() for f in files},''))
+    finally:
+        shutil.rmtree(tmp,ignore_errors=True)
 def run(job):
     name,ov,why=job
     if ov is None: return name,'stale',why
@@ -72,7 +89,7 @@ with cf.ThreadPoolExecutor(6) as ex:
 bres=[]
 with cf.ThreadPoolExecutor(6) as ex:
     for x in ex.map(run,bjobs): bres.append(x)
-bsilent=[x for x in bres if x[1]=='missed']; balarm=[x for x in bres if x[1]=='detected']
+bsilent=[x for x in bres if x[1]=='missed']; balarm=[x for x in bres if x[1]=='detected']; bstale=[x for x in bres if x[1] in('stale','does-not-compile')]
 print("%s negative controls: %d behaviour-preserving variants, %d silent, %d FALSE ALARMS"%(prop,len(bres),len(bsilent),len(balarm)))
 for x in balarm: print("  FALSE ALARM on behaviour-preserving edit:",x[0],x[2])
 det=[x for x in res if x[1]=='detected']; missed=[x for x in res if x[1]=='missed']; stale=[x for x in res if x[1] in('stale','does-not-compile')]
